@@ -248,6 +248,16 @@ func includeSets() []modset {
 		{"import:status-reference-across-modules:unused", map[string]string{
 			"a": "module a { namespace \"urn:a\"; prefix a; import b { prefix b; } grouping g3 { status deprecated; uses b:g1; } }",
 			"b": "module b { namespace \"urn:b\"; prefix b; grouping g2 { status deprecated; leaf x2 { type string; } } grouping g1 { uses g2; } }"}, "any"},
+		// groupings of two sibling submodules (neither includes the other) that use each other, and the
+		// module using one of them: an error (unknown grouping or cycle), never an endless expansion
+		{"include:sibling-groupings-use-each-other", map[string]string{"a": strings.Replace(mod("s1", "s2"), " container ca {", " container top { uses one; } container ca {", 1),
+			"s1": sub("s1", "a", " grouping one { container a1 { uses two; } }"), "s2": sub("s2", "a", " grouping two { container b1 { uses one; } }")}, "error"},
+		{"include:sibling-groupings-use-each-other:unused", map[string]string{"a": mod("s1", "s2"),
+			"s1": sub("s1", "a", " grouping one { container a1 { uses two; } }"), "s2": sub("s2", "a", " grouping two { container b1 { uses one; } }")}, "error"},
+		{"include:module-and-submodule-groupings-use-each-other", map[string]string{"a": strings.Replace(mod("s1"), " container ca {", " grouping one { container a1 { uses two; } } container top { uses one; } container ca {", 1),
+			"s1": sub("s1", "a", " grouping two { container b1 { uses one; } }")}, "error"},
+		{"include:sibling-grouping-used-without-include", map[string]string{"a": strings.Replace(mod("s1", "s2"), " container ca {", " container top { uses one; } container ca {", 1),
+			"s1": sub("s1", "a", " grouping one { container a1 { uses two; } }"), "s2": sub("s2", "a", " grouping two { leaf z { type string; } }")}, "any"},
 		{"include:cycle", map[string]string{"a": mod("s1", "s2"), "s1": sub("s1", "a", " container cs1;", "s2"), "s2": sub("s2", "a", " container cs2;", "s1")}, "error"},
 		{"include:self", map[string]string{"a": mod("s1"), "s1": sub("s1", "a", " container cs1;", "s1")}, "error"},
 		// include cycles among submodules that belong to the module but that the module's own include
